@@ -523,6 +523,50 @@ theorem reads_wf (cfg : Config) (h14 : cfg.headerLen = 14) (hcodec : cfg.codec =
     rw [e1]
     simp [execAll]
 
+/-- every `read()` of every segmentation of a PREFIX of the stream (the client has sent only part
+    of the pipeline so far — cut at any byte — and `rest` is still to come): exactly the commands
+    that are complete in what has arrived have been executed, the buffer holds a proper prefix of
+    the next frame -/
+theorem reads_wf_prefix (cfg : Config) (h14 : cfg.headerLen = 14) (hcodec : cfg.codec = codec1) (hdepth : 1 ≤ cfg.env.depth) :
+    ∀ (chunks : List Bytes) (cmds : List Cmd) (b0 rest : Bytes) (tx : Bool) (acts : List Action),
+      (b0 ++ chunks.flatten) ++ rest = stream cmds → Small (stream cmds) → (stream cmds).length ≤ cfg.maxBuffer →
+      (∀ c ∈ cmds, CmdOK cfg c) →
+      (∀ c cs, cmds = c :: cs → b0.length < (encCmd c).length) →
+      ∃ (done left : List Cmd) (buf' : Bytes) (tx' : Bool),
+        cmds = done ++ left ∧ buf' ++ rest = stream left ∧
+        (∀ c cs, left = c :: cs → buf'.length < (encCmd c).length) ∧
+        chunks.foldl (fun (acc : St × List Action) c =>
+          let (s', a) := onRead cfg acc.1 c; (s', acc.2 ++ a)) (⟨b0, tx, false⟩, acts)
+          = (⟨buf', tx', false⟩, acts ++ execAll done) := by
+  intro chunks
+  induction chunks with
+  | nil =>
+    intro cmds b0 rest tx acts h _ _ _ hb
+    exact ⟨[], cmds, b0, tx, rfl, by simpa using h, hb, by simp [execAll]⟩
+  | cons ch chunks ih =>
+    intro cmds b0 rest tx acts h hs hmax hok _
+    have h' : (b0 ++ ch) ++ (chunks.flatten ++ rest) = stream cmds := by
+      simpa [List.append_assoc] using h
+    obtain ⟨done, left, buf', tx', e1, e3, e4, e5⟩ :=
+      onRead_wf cfg h14 hcodec hdepth cmds b0 ch (chunks.flatten ++ rest) tx h' hs
+        (by have := congrArg List.length h'; simp at this; omega) hok
+    simp only [List.foldl_cons, e5]
+    have hsl : Small (stream left) := by
+      have := stream_len_le done left
+      unfold Small at *
+      rw [← e1] at this
+      omega
+    have hml : (stream left).length ≤ cfg.maxBuffer := by
+      have := stream_len_le done left
+      rw [← e1] at this
+      omega
+    obtain ⟨done2, left2, buf2, tx2, f1, f3, f4, f5⟩ :=
+      ih left buf' rest tx' (acts ++ execAll done) (by simpa [List.append_assoc] using e3) hsl hml
+        (fun c hc => hok c (by rw [e1]; simp [hc])) e4
+    refine ⟨done ++ done2, left2, buf2, tx2, by rw [e1, f1]; simp, f3, f4, ?_⟩
+    rw [f5]
+    simp [execAll]
+
 theorem splitReads_flatten (n : Nat) : ∀ (f : Nat) (seg : Bytes), (splitReads n f seg).flatten = seg := by
   intro f
   induction f with
